@@ -351,11 +351,13 @@ static int Convert_mus2midi(uint8_t *in, uint32_t insize,
         /* handle events */
         switch ((event & 122) >> 4){
             case MUSEVENT_KEYOFF:
+                if (end - cur < 1) goto _end;
                 status |=  0x80;
                 bit1 = *cur++;
                 bit2 = 0x40;
                 break;
             case MUSEVENT_KEYON:
+                if (end - cur < 1 || end - cur < ((*cur & 128) ? 2 : 1)) goto _end;
                 status |= 0x90;
                 bit1 = *cur & 127;
                 if (*cur++ & 128)   /* volume bit? */
@@ -363,11 +365,13 @@ static int Convert_mus2midi(uint8_t *in, uint32_t insize,
                 bit2 = channel_volume[channelMap[channel]];
                 break;
             case MUSEVENT_PITCHWHEEL:
+                if (end - cur < 1) goto _end;
                 status |= 0xE0;
                 bit1 = (*cur & 1) << 6;
                 bit2 = (*cur++ >> 1) & 127;
                 break;
             case MUSEVENT_CHANNELMODE:
+                if (end - cur < 1) goto _end;
                 status |= 0xB0;
                 if (*cur >= sizeof(mus_midimap) / sizeof(mus_midimap[0])) {
                     /*_WM_ERROR_NEW("%s:%i: can't map %u to midi",
@@ -378,6 +382,7 @@ static int Convert_mus2midi(uint8_t *in, uint32_t insize,
                 bit1 = mus_midimap[*cur++];
                 break;
             case MUSEVENT_CONTROLLERCHANGE:
+                if (end - cur < 2) goto _end;
                 if (*cur == 0) {
                     cur++;
                     status |= 0xC0;
@@ -432,6 +437,7 @@ static int Convert_mus2midi(uint8_t *in, uint32_t insize,
         if (event & 128) {
             delta_time = 0;
             do {
+                if (end - cur < 1) goto _end;
                 delta_time = (int32_t)((delta_time * 128 + (*cur & 127)) * (140.0 / (double)frequency));
             } while ((*cur++ & 128));
         } else {
